@@ -25,6 +25,8 @@ func decodeElementInitValueVector(r *bytes.Reader) ([]wasm.Index, error) {
 	vs, _, err := leb128.DecodeUint32(r)
 	if err != nil {
 		return nil, fmt.Errorf("get size of vector: %w", err)
+	} else if err = ensureVectorFits(r, vs); err != nil {
+		return nil, err
 	}
 
 	vec := make([]wasm.Index, vs)
@@ -46,6 +48,8 @@ func decodeElementConstExprVector(r *bytes.Reader, elemType wasm.RefType, enable
 	vs, _, err := leb128.DecodeUint32(r)
 	if err != nil {
 		return nil, fmt.Errorf("failed to get the size of constexpr vector: %w", err)
+	} else if err = ensureVectorFits(r, vs); err != nil {
+		return nil, err
 	}
 	vec := make([]wasm.Index, vs)
 	for i := range vec {
